@@ -198,6 +198,30 @@ def run(ctx):
         ok = from_max and not dep_heads and not arm
         ctx.ob("S2b", "transaction_args|start_op continues the document-wide op counter", ok, st["sp"], "max_op() + 1, independent of isolation" if ok else
                "start_op of a new transaction depends on the isolation heads (from max_op: %s, data from heads: %s, set on an isolation arm: %s): ops of an isolated transaction would reuse counters of ops outside the scope" % (from_max, dep_heads, arm))
+    # ---------------- S2c: AutoCommit hands its isolation heads to every transaction it opens, unfiltered
+    ctx.rule("S2c", "provenance: the heads argument of transaction_args in AutoCommit derives from self.isolation with no Option adaptor that can drop it (filter / and_then / take_if / xor / and / then)")
+    n_ta = 0
+    for p, r in sorted(f.fns.items()):
+        if r["ckey"] != ("automerge", "lib") or not norm_fn(p).startswith("automerge::autocommit::AutoCommit::"):
+            continue
+        b2 = cfg.body(r)
+        # only where the session's transaction is opened (the result is kept in self.transaction); empty_change() deliberately makes a
+        # merge commit over all current heads with transaction_args(None) and keeps nothing
+        keeps = any(st["d"]["p"] and st["d"]["p"][-1] == ".transaction" and b2.origin(st["d"]["l"], tuple(st["d"]["p"]))[0] == 1 for blk in b2.blocks for st in blk["st"])
+        if not keeps:
+            continue
+        for bi, t in b2.calls():
+            if callee(t) != TARGS:
+                continue
+            n_ta += 1
+            ctx.analysed_fns.add(p)
+            pv = b2.provenance(t["args"][1], through_calls=True)
+            from_iso = any(b2.origin(l, pr)[0] == 1 and ".isolation" in b2.origin(l, pr)[1] for l, pr in pv.places)
+            drops = sorted({(norm_fn(c) or "").split("::")[-1] for c in pv.callees()} & {"filter", "and_then", "take_if", "xor", "and", "then", "then_some", "filter_map"})
+            ok = from_iso and not drops
+            ctx.ob("S2c", "%s|transaction_args(self.isolation)" % norm_fn(p).split("::")[-1], ok, t["sp"], "isolation heads handed on as they are" if ok else
+                   "the transaction is opened with heads other than self.isolation (from the field: %s, adaptors that can drop it: %s): a transaction inside an isolated session can run unscoped" % (from_iso, drops))
+    ctx.floor("transaction_args calls in AutoCommit", n_ta, 1)
     # ---------------- S3 / S4
     C04.run(ctx)
     C07.run(ctx)
